@@ -79,6 +79,16 @@ def correspond(model_ok, res):
                 {"nested_fields": {"a": {"b": ["c"]}}, "object_fields": ["n.o.h"]},
                 {"nested_fields": {"n": {"o": {"h": None}}}, "object_fields": {"a": {"b": {"c": None}}}, "sub_fields": ["a.b.c.raw"]}):
         sessions.append((cfg, [parser.parse(q) for q in cq], "containers-x-values"))
+    # dotted keys in a nested-fields specification, in both orders of the keys, with and without object fields:
+    # every declared container is refused, every declared inner field is translated
+    dq = ["author.book:x", "author:(book:x)", "author.book.title:x", "author:(book:(isbn:x))", "author.name:x", "author:x",
+          "shop.owner.pet:x", "shop.owner.pet.kind:x", "shop:(owner.name:x)", "shop.owner:x", "author.book.isbn:\"a b\""]
+    for nf in ({"author.book": ["title", "isbn"], "author": ["name"]},
+               {"author": ["name"], "author.book": ["title", "isbn"]},
+               {"shop": {"owner.pet": ["kind"], "owner": ["name"]}, "author": {"name": None, "book": ["title", "isbn"]}},
+               {"shop": {"owner": ["name"], "owner.pet": ["kind"]}, "author.book": {"title": None, "isbn": None}, "author.name": None}):
+        for extra in ({}, {"object_fields": ["x.y"], "sub_fields": []}):
+            sessions.append((dict(extra, nested_fields=nf), [parser.parse(q) for q in dq], "dotted-spec-key-order"))
     sessions += E.builder_sessions(r, T, n)
     stats = {"oracle_cases": 0, "predicted": {"field": 0, "mix": 0, "ok": 0}, "F8": 0}
 
